@@ -491,7 +491,10 @@ func (k *vCtl) reqTriggers() {
 		var okay bool
 		err, ret := k.do(fmt.Sprintf("ConfigureTriggers(%v,edge-multi short=%v contaminated=%v level=%d)", idx, fts.EdgeMultiMakeShortRecords, fts.EdgeMultiMakeContaminatedRecords, fts.EdgeMultiLevel),
 			k.queuedWantEarly(want), func() error { return k.sc.ConfigureTriggers(&fts, &okay) })
-		if ret && err == nil && want == "any" {
+		if ret && want == "any" {
+			// also when the reply is an error: the request is applied channel by channel, and a channel that refuses it
+			// (e.g. variable-length records on a channel with projectors) comes after channels that have accepted it
+			_ = err
 			k.emtOn = true
 		}
 		return
@@ -534,7 +537,8 @@ func (k *vCtl) reqPulseLengths() {
 	if ret && want == "any" && err != nil {
 		k.lenUnknown = true // the change may have been applied to some channels only
 	}
-	if ret && err == nil && (want == "ok" || want == "any") && !(p.ns == k.ns && p.npre == k.npre) && k.gate() == "" {
+	// (also while a source is ending itself: a request that still got through has changed the lengths the server compares the next one with)
+	if ret && err == nil && (want == "ok" || want == "any") && !(p.ns == k.ns && p.npre == k.npre) {
 		k.ns, k.npre = p.ns, p.npre
 		k.hasProj = map[int]bool{} // projectors sized for the old length no longer fit; the model forgets them conservatively
 	}
